@@ -5,6 +5,7 @@ go 1.23.0
 require (
 	github.com/wader/fq v0.0.0
 	github.com/wader/gojq v0.12.1-0.20250208151254-0aa7b87b2c2b
+	golang.org/x/crypto v0.37.0
 	pgregory.net/rapid v1.3.0
 )
 
@@ -18,7 +19,6 @@ require (
 	github.com/mitchellh/copystructure v1.2.0 // indirect
 	github.com/mitchellh/mapstructure v1.5.0 // indirect
 	github.com/mitchellh/reflectwalk v1.0.2 // indirect
-	golang.org/x/crypto v0.37.0 // indirect
 	golang.org/x/net v0.39.0 // indirect
 	golang.org/x/sys v0.32.0 // indirect
 	golang.org/x/text v0.24.0 // indirect
